@@ -31,6 +31,7 @@ def cfg(max_instr, max_mut, hang=False, export=False, quote_family=False):
 
 
 SPECIAL = {'\\u00e9': 'é', '\\f': '\x0c', '\\v': '\x0b', '\\u00a0': '\u00a0', '\\u2028': '\u2028', 'LONG': 'a' * 300,
+           'NBSP-HDR': '\u00a0[assert]', 'FF-HDR': '\x0c[setup]', 'EMSP-HDR': '\u2003[cleanup]',
            'DIGIT2': '\u00b2', 'DIGITS-AR': '\u0661\u0662', 'NINES': '9' * 5000}
 
 
@@ -124,7 +125,8 @@ def known(text, o):
 EXTREME = ['0', '-1', '1//0', '1/0', '1.5', "'a'", '()', '2**70', '1e3', 'None', '', '(', ')', '[', '*', '\\', "'\\6'",
            "'(?P<a'", "'[a-'", "'a{2,1}'", '+', '@[UNDEF]@', '@[EXACTLY_ACT]@', '"', "'", '<<EOF', ':>', '-rel-tmp', '-rel',
            '!', '&&', '||', '=', ':', '{', '}', '-full', 'é', '\t', "'a{4294967296}'", '10**5000', '[setup]', '`', '\x0c', '\x0b', '\u00a0', '\u2028', 'a' * 300,
-           "''", "'.'", '\u00b2', '9' * 5000, '007', '\u0661', 'exit()', 'exit(7)', 'quit()']
+           "''", "'.'", '\u00b2', '9' * 5000, '007', '\u0661', 'exit()', 'exit(7)', 'quit()', '\u00a0[assert]',
+           '\x0c[setup]', '\u2003[cleanup]']
 
 
 def mutate(rnd, text):
